@@ -579,8 +579,10 @@ impl Parser {
             }
             Some(Lexem::Operator(s)) => {
                 let right = self.parse_add_sub()?;
-                let op = Op::from_with_not(s, not);
-                Ok(Some(Expr::op(left.unwrap(), op.unwrap(), right.unwrap())))
+                match (left, Op::from_with_not(s, not), right) {
+                    (Some(left), Some(op), Some(right)) => Ok(Some(Expr::op(left, op, right))),
+                    _ => Err(String::from("Error parsing condition, unknown operator or missing operand")),
+                }
             }
             _ => {
                 self.drop_lexem();
